@@ -38,7 +38,7 @@ func runC16(r *mon.Run) {
 		}
 		if i%97 == 5 || i%97 == 54 {
 			// long lists around powers of two (chunked / batched implementations split there)
-			l = []int{31, 32, 33, 63, 64, 65, 127, 128, 129, 130, 255, 256, 257, 300}[(i/97)%14]
+			l = []int{31, 32, 33, 63, 64, 65, 127, 128, 129, 130, 255, 256, 257, 300, 513, 1025, 2049, 4097, 4100, 8193}[(i/97)%20]
 			w.Class("c16:len>=31:around-2^k")
 		}
 		if l >= 13 {
